@@ -24,6 +24,7 @@ import (
 	"net"
 	"net/http"
 	"strings"
+	"sync"
 	"syscall"
 	"time"
 
@@ -65,6 +66,7 @@ type revisionSyncer struct {
 	// internal
 	flight     singleflight.Group
 	schema     string
+	schemaMu   sync.RWMutex
 	httpClient *http.Client
 }
 
@@ -148,8 +150,9 @@ func (r *revisionSyncer) singleFlightGetRevisionFromLeader() (uint64, error) {
 	v, err, _ := r.flight.Do("get_revision", func() (interface{}, error) {
 		// there is no guarantee about the schema of leader, so we just try one by one
 		for _, schema := range r.getRetrySchemas() {
-			r.schema = schema
-			rev, err := r.getRevisionFromLeader()
+			// fetches may run concurrently, so the schema is handed over explicitly and only remembered as a preference
+			r.setSchema(schema)
+			rev, err := r.getRevisionFromLeader(schema)
 			if err != nil {
 				if possibleSchemaMismatch(err) {
 					// switch schema and retry in next loop if possible
@@ -221,13 +224,13 @@ func isSendHttpsReqToHttpServerErr(err error) bool {
 	return err != nil && strings.Contains(err.Error(), "http: server gave HTTP response to HTTPS client")
 }
 
-func (r *revisionSyncer) getRevisionFromLeader() (uint64, error) {
+func (r *revisionSyncer) getRevisionFromLeader(schema string) (uint64, error) {
 	leaderAddress := r.leaderElection.GetLeaderInfo()
 	r.metricCli.EmitGauge("follower.getleader", 1, metrics.Tag("leader", leaderAddress))
 	startTime := time.Now()
 
 	// todo: implement it based on grpc API
-	url := fmt.Sprintf("%s://%s/status", r.schema, leaderAddress)
+	url := fmt.Sprintf("%s://%s/status", schema, leaderAddress)
 	klog.V(10).InfoS("get revision", "from", url)
 	response, err := r.httpClient.Get(url)
 	r.metricCli.EmitHistogram("member.round_trip",
@@ -268,8 +271,20 @@ func (r *revisionSyncer) getRetrySchemas() []string {
 		return schemasHttpOnly
 	}
 	// prefer prev connectable schema
-	if r.schema == "http" {
+	if r.getSchema() == "http" {
 		return schemasHttpHttps
 	}
 	return schemasHttpsHttp
+}
+
+func (r *revisionSyncer) getSchema() string {
+	r.schemaMu.RLock()
+	defer r.schemaMu.RUnlock()
+	return r.schema
+}
+
+func (r *revisionSyncer) setSchema(schema string) {
+	r.schemaMu.Lock()
+	defer r.schemaMu.Unlock()
+	r.schema = schema
 }
